@@ -961,15 +961,15 @@ Theorem digest_binds sv ht idx c c' f f' :
 Proof.
   intros W W' H H' D. destruct sv; unfold fed_of in H, H'.
   - inv_bind_as H o Ho. inv_bind_as H' o' Ho'. injection H as <-. injection H' as <-.
-    destruct o as [b|], o' as [b'|]; cbn in D.
-    + destruct (bytes_dec b b') as [->|N]; [now left|]. right; left. exists b, b'. cbn. auto.
-    + right; right. exists b. cbn. auto.
-    + right; right. exists b'. cbn. auto.
+    destruct o as [b|], o' as [b'|]; cbn [digest_of] in D.
+    + destruct (bytes_dec b b') as [->|N]; [now left|]. right; left. exists b, b'. cbn [feeds In]. auto.
+    + right; right. exists b. cbn [feeds In app]. auto.
+    + right; right. exists b'. cbn [feeds In app]. auto.
     + now left.
-  - inv_bind_as H s Hs. inv_bind_as H' s' Hs'. injection H as <-. injection H' as <-. cbn in D.
+  - inv_bind_as H s Hs. inv_bind_as H' s' Hs'. injection H as <-. injection H' as <-. cbn [digest_of] in D.
     destruct (bytes_dec (segwit_assemble dsha256 s) (segwit_assemble dsha256 s')) as [E|N].
     + destruct (segwit_assemble_inj _ _ _ _ _ _ _ _ _ _ _ W W' Hs Hs' E) as [->|A]; auto.
-    + right; left. exists (segwit_assemble dsha256 s), (segwit_assemble dsha256 s'). cbn. auto.
+    + right; left. exists (segwit_assemble dsha256 s), (segwit_assemble dsha256 s'). cbn [feeds In]. auto.
 Qed.
 
 Theorem digest_commits sv ht idx c c' f f' :
@@ -1080,3 +1080,21 @@ Lemma ex_single_unchanged :
   /\ fed_of SV_bip143 131 0 ex_ctx = fed_of SV_bip143 131 0 ex_ctx'
   /\ fed_of SV_legacy 1 0 ex_ctx <> fed_of SV_legacy 1 0 ex_ctx'.
 Proof. vm_compute. repeat split. discriminate. Qed.
+
+(* ---- 10. reading the classification ------------------------------------------------------------------------------- *)
+Lemma all_commits_everything sv ht idx has_out fl :
+  ht_none ht = false -> ht_single ht = false -> ht_acp ht = false ->
+  committed sv ht idx has_out fl =
+  match fl with
+  | F_script_sig _ | F_witness _ | F_single_has_output => false
+  | F_spent_amount => match sv with SV_bip143 => true | SV_legacy => false end
+  | _ => true
+  end.
+Proof.
+  intros Hn Hs Ha. unfold committed. rewrite Hn, Hs, Ha.
+  destruct sv, fl; cbn [negb andb orb]; rewrite ?orb_true_r; reflexivity.
+Qed.
+
+Lemma unlocking_never_committed sv ht idx has_out j :
+  committed sv ht idx has_out (F_script_sig j) = false /\ committed sv ht idx has_out (F_witness j) = false.
+Proof. split; reflexivity. Qed.
